@@ -9,7 +9,7 @@
     the byte stream (bitio_roundtrip, bitio_same_widths). *)
 From Coq Require Import ZArith List Bool String Lia.
 Require Import H4.gen.Gen_Comp H4.CompSpec H4.CompRleModel H4.CompRleProofs H4.CompCodecModel H4.CompCodecProofs
-  H4.CompBitioProofs.
+  H4.CompBitioProofs H4.CompBitbufModel H4.CompBitbufProofs.
 Import ListNotations.
 Local Open Scope Z_scope.
 Notation concat := List.concat.
@@ -132,6 +132,16 @@ Theorem bitio_reads_any_bytes : forall bytes, Forall byte bytes -> forall ops s 
   br_run bytes s ops = Some (field_run (be_value bytes) (8 * zlen bytes) p ops).
 Proof. exact br_run_fields. Qed.
 Print Assumptions bitio_reads_any_bytes.
+
+(** The block buffer of the bit reader (Hstartbitread pre-read, the refill inside Hbitread with its block_offset /
+    buf_read bookkeeping, Hbitseek within the buffered block or into another 4096-byte block): for EVERY stored
+    element of at least one byte and EVERY sequence of reads (widths 1..32) and bit seeks inside it, the values
+    delivered are the bit fields of the stored bytes. *)
+Theorem bitbuf_reads : forall elt ops, Forall byte elt -> 0 < zlen elt ->
+  bops_ok (8 * zlen elt) 0 (map to_bop ops) = true ->
+  bb_run elt (bb_start elt) ops = Some (field_run (be_value elt) (8 * zlen elt) 0 (map to_bop ops)).
+Proof. exact bitbuf_reads_lemma. Qed.
+Print Assumptions bitbuf_reads.
 
 (** Non-vacuity: the hypotheses are met by concrete, non-trivial states. *)
 Example bitio_domain_example :
